@@ -894,10 +894,7 @@ func (c *client) maybeOverrideUnsupportedWriteConsistency(isSelect bool, raw *fr
 					zap.Stringer("unsupported", m.Consistency),
 					zap.Stringer("override", overrideConsistency))
 				m.Consistency = overrideConsistency
-				return &frame.Frame{
-					Header: raw.Header,
-					Body:   body,
-				}
+				return c.reencodeFrame(raw, body)
 			} else {
 				c.proxy.logger.Debug("no override required for execute write consistency",
 					zap.Stringer("request", m),
@@ -910,10 +907,7 @@ func (c *client) maybeOverrideUnsupportedWriteConsistency(isSelect bool, raw *fr
 					zap.Stringer("unsupported", m.Consistency),
 					zap.Stringer("override", overrideConsistency))
 				m.Consistency = overrideConsistency
-				return &frame.Frame{
-					Header: raw.Header,
-					Body:   body,
-				}
+				return c.reencodeFrame(raw, body)
 			} else {
 				c.proxy.logger.Debug("no override required for query write consistency",
 					zap.Stringer("request", m),
@@ -926,10 +920,7 @@ func (c *client) maybeOverrideUnsupportedWriteConsistency(isSelect bool, raw *fr
 					zap.Stringer("unsupported", m.Consistency),
 					zap.Stringer("override", overrideConsistency))
 				m.Consistency = overrideConsistency
-				return &frame.Frame{
-					Header: raw.Header,
-					Body:   body,
-				}
+				return c.reencodeFrame(raw, body)
 			} else {
 				c.proxy.logger.Debug("no override required for batch write consistency",
 					zap.Stringer("request", m),
@@ -939,6 +930,20 @@ func (c *client) maybeOverrideUnsupportedWriteConsistency(isSelect bool, raw *fr
 	}
 
 	return raw
+}
+
+// reencodeFrame encodes a modified body and returns it as a raw frame whose header declares the body's actual length.
+// (Encoding it as a `frame.Frame` would declare 16 bytes too many for requests that carry the tracing flag: the
+// protocol library accounts for a tracing ID that only responses contain.)
+func (c *client) reencodeFrame(raw *frame.RawFrame, body *frame.Body) interface{} {
+	var buf bytes.Buffer
+	if err := c.codec.EncodeBody(raw.Header, body, &buf); err != nil {
+		c.proxy.logger.Error("unable to re-encode frame with overridden consistency, forwarding it unmodified", zap.Error(err))
+		return raw
+	}
+	hdr := *raw.Header
+	hdr.BodyLength = int32(buf.Len())
+	return &frame.RawFrame{Header: &hdr, Body: buf.Bytes()}
 }
 
 func (c *client) isUnsupportedWriteConsistency(consistency primitive.ConsistencyLevel) bool {
